@@ -91,7 +91,7 @@ def typestate(rep, prog):
     for ic in inv_calls:
         src = origin(ic.args[0], ic.lineno + 1)
         if not src:
-            rep.ob('R06.typestate', 'open_circuit_impedance', None, f'origin of the inverted matrix not found: {ast.unparse(ic)[:60]}', f.site); continue
+            return typestate_terms(rep, prog)          # not followed through the syntax: read the provenance off the evaluated result
         c = src[0]
         fn = ast.unparse(c.func).split('.')[-1]
         if fn == 'nodal_analysis_coefficient_matrix':
@@ -114,7 +114,7 @@ def typestate(rep, prog):
                    'inverts node_admittance_matrix(network) of a network whose ideal voltage sources were never shorted: node_admittance_matrix leaves them OUT (open), '
                    'so the impedance is that of the circuit with the sources removed, e.g. V(1,0), R1(1,2)=2, R2(2,0)=3 gives Z(2,0)=3 instead of 1.2', f.site)
         else:
-            rep.ob('R06.typestate', 'open_circuit_impedance', None, f'inverted matrix comes from {fn}(...), which the rule does not know', f.site)
+            return typestate_terms(rep, prog)          # the matrix passes through a call the syntactic rule does not know: decide on the evaluated result
 
 
 def _find(k, pred, out=None):
